@@ -226,6 +226,24 @@ INSERT INTO w SELECT 'key'||(i%%50), i/50, CASE i%%4 WHEN 0 THEN NULL WHEN 1 THE
 			`PRAGMA incremental_vacuum(5)`,
 			`PRAGMA incremental_vacuum`,
 		}},
+		{"index-zoo", []string{
+			`CREATE TABLE z (id INTEGER PRIMARY KEY, a, b TEXT COLLATE NOCASE, c, u UNIQUE, pad)`,
+			`CREATE INDEX z_a ON z (a)`,
+			`CREATE INDEX z_ab ON z (a DESC, b)`,
+			`CREATE INDEX z_b_rtrim ON z (b COLLATE RTRIM DESC, id)`,
+			`CREATE UNIQUE INDEX z_uc ON z (c, a)`,
+			`CREATE INDEX z_part ON z (a) WHERE c > 5`,
+			`CREATE INDEX z_expr ON z (a + 1)`,
+			`CREATE INDEX z_pad ON z (pad, a)`,
+			`INSERT INTO z VALUES (1, 1, 'x', 1, 'u1', 'p'), (2, 1.0, 'X', 2, 'u2', 'p'), (3, NULL, 'x ', 3, NULL, 'p'), (4, 'txt', NULL, 4, NULL, 'p'), (5, x'00', 'y', 5, 'u5', 'p'), (6, 2, 'Y ', 6, 'u6', NULL), (7, -1, '', 7, 'u7', 'p')`,
+			fmt.Sprintf(`WITH RECURSIVE n(i) AS (SELECT 10 UNION ALL SELECT i+1 FROM n WHERE i<%d)
+INSERT INTO z SELECT i, i%%13, CASE i%%3 WHEN 0 THEN 'k'||(i%%5) WHEN 1 THEN 'K'||(i%%5) ELSE 'k'||(i%%5)||' ' END, i, 'u'||i, substr('%s',1,(i*53)%%700) FROM n`, 10+n/3, strings.Repeat("pad", 240)),
+			`DELETE FROM z WHERE id % 4 = 0`,
+			`UPDATE z SET a = a + 0.5 WHERE id % 5 = 0 AND typeof(a) = 'integer'`,
+			`DROP INDEX z_a`,
+			`CREATE INDEX z_expr2 ON z (a * 2)`,
+			`VACUUM`,
+		}},
 		{"real-affinity-and-classes", []string{
 			`CREATE TABLE t (id INTEGER PRIMARY KEY, r REAL, n NUMERIC, i INTEGER, s TEXT, b BLOB, x)`,
 			`INSERT INTO t VALUES (1, 2.0, 2.0, 2.0, 2.0, 2.0, 2.0)`,
